@@ -40,12 +40,16 @@ type Case struct {
 	Echo        sim.Echo `json:"echo"`
 	Plan        []int    `json:"plan"`
 	DelaysNS    []int64  `json:"delays_ns"`
-	ReadSize    int      `json:"read_size"`
-	ReadDelayNS int64    `json:"read_delay_ns"`
-	Depth       int      `json:"depth"`
-	Strip       bool     `json:"strip"`
-	Exact       bool     `json:"exact"`
-	API         string   `json:"api"` // g1 (generic per command), gN (generic SendCommands), n1, nN
+	// PauseMS > 0: once, before the PauseAtRead-th read that delivers something, the device falls
+	// silent for this long (seconds: in the middle of an answer, a prompt, an echo)
+	PauseMS     int    `json:"pause_ms,omitempty"`
+	PauseAtRead int    `json:"pause_at_read,omitempty"`
+	ReadSize    int    `json:"read_size"`
+	ReadDelayNS int64  `json:"read_delay_ns"`
+	Depth       int    `json:"depth"`
+	Strip       bool   `json:"strip"`
+	Exact       bool   `json:"exact"`
+	API         string `json:"api"` // g1 (generic per command), gN (generic SendCommands), n1, nN
 	// RealTime: run on the wall clock without a bubble (ReadDelay 0 spins and cannot run on the
 	// virtual clock).
 	RealTime bool `json:"real_time,omitempty"`
@@ -105,6 +109,10 @@ func gen(t *rapid.T) Case {
 
 		lines, reps := sim.GenSafeLines(t, nl, pats, ansi, 7)
 		ev.Count("cli", "repaired_lines", reps)
+
+		if len(lines) > 0 && rapid.IntRange(0, 5).Draw(t, "bin") == 0 {
+			lines[rapid.IntRange(0, len(lines)-1).Draw(t, "binAt")].Bin = rapid.SampledFrom(sim.BinTokens).Draw(t, "binTok")
+		}
 
 		cmd := Cmd{Text: sim.GenCommand(t), Out: lines}
 
@@ -187,6 +195,11 @@ func gen(t *rapid.T) Case {
 		c.DelaysNS = append(c.DelaysNS, int64(d))
 	}
 
+	if rd >= 5*time.Millisecond && rapid.IntRange(0, 9).Draw(t, "pause") == 0 {
+		c.PauseMS = rapid.SampledFrom([]int{500, 2500, 3000}).Draw(t, "pauseMS")
+		c.PauseAtRead = rapid.IntRange(0, 60).Draw(t, "pauseAtRead")
+	}
+
 	return c
 }
 
@@ -222,7 +235,7 @@ func (c *Case) budget() time.Duration {
 		total += 3*len(cm.Text) + 2*len(c.promptRaw()) + 8
 
 		for _, l := range cm.Out {
-			total += len(l.Raw) + 2
+			total += len(l.Raw) + len(l.Bin) + 2
 		}
 	}
 
@@ -232,7 +245,12 @@ func (c *Case) budget() time.Duration {
 
 	// ... plus a fixed allowance per byte: the budget must not encode the implementation's polling
 	// cadence (a library that pauses a millisecond between reads is as correct)
-	return time.Duration(total) * (25*time.Duration(c.ReadDelayNS) + 3*time.Millisecond)
+	maxDelay := time.Duration(0)
+	for _, d := range c.DelaysNS {
+		maxDelay = max(maxDelay, time.Duration(d))
+	}
+
+	return time.Duration(total)*(25*time.Duration(c.ReadDelayNS)+3*time.Millisecond+maxDelay) + time.Duration(c.PauseMS)*time.Millisecond
 }
 
 func (c *Case) promptRaw() string {
@@ -281,6 +299,8 @@ func run(c Case) ev.Verdict {
 	for _, d := range c.DelaysNS {
 		pipe.Delays = append(pipe.Delays, time.Duration(d))
 	}
+
+	pipe.Pause, pipe.PauseAtRead = time.Duration(c.PauseMS)*time.Millisecond, c.PauseAtRead
 
 	opts := []util.Option{
 		options.WithCustomTransport(pipe),
